@@ -22,7 +22,8 @@ var lim = kernel.Limits{MaxSteps: 400, SettleSteps: 1200}
 // Specs lists the checks this world binary serves.
 func Specs() []kernel.Spec {
 	return []kernel.Spec{
-		{Prop: "C20", Mk: New(), Limits: lim},
+		{Prop: "C20", Mk: New(Mode{}), Limits: lim},
+		{Prop: "C16ctl", Mk: New(Mode{Ctl: true}), Limits: lim},
 	}
 }
 
@@ -36,9 +37,9 @@ func TestSim(t *testing.T) { kernel.Main(t, "migrate", Specs()) }
 func TestHarnessEntries(t *testing.T) {
 	tape := kernel.NewSeedTape(7)
 	pki := newSrcPKI(time.Date(2000, 1, 1, 0, 0, 0, 0, time.UTC))
-	mix := entryMix{PrecertPct: 50, BadPct: 40, PreIssuer: true}
+	mix := entryMix{PrecertPct: 50, BadPct: 30, PreIssuer: true, EdgePct: 40}
 	kinds := map[string]int{}
-	for i := 0; i < 60; i++ {
+	for i := 0; i < 120; i++ {
 		e := pki.genEntry(tape, mix, "T", i, nil)
 		kinds[e.Kind]++
 		rle, err := ct.RawLogEntryFromLeaf(int64(i), &ct.LeafEntry{LeafInput: e.Leaf, ExtraData: e.Extra})
@@ -50,11 +51,15 @@ func TestHarnessEntries(t *testing.T) {
 		if bad && !x509.IsFatal(perr) {
 			t.Errorf("entry %d (%s): certificate parses (err=%v), want a fatal parse error", i, e.Kind, perr)
 		}
-		if !bad && perr != nil {
+		if e.Kind == "x509.nonfatal" {
+			if perr == nil || x509.IsFatal(perr) {
+				t.Errorf("entry %d (%s): want a non-fatal parse error, got %v", i, e.Kind, perr)
+			}
+		} else if !bad && perr != nil {
 			t.Errorf("entry %d (%s): well-formed entry does not parse: %v", i, e.Kind, perr)
 		}
 	}
-	for _, k := range []string{"x509", "precert", "x509.bad", "precert.bad"} {
+	for _, k := range []string{"x509", "precert", "x509.bad", "precert.bad", "x509.nonfatal", "x509.nochain", "precert.nochain"} {
 		if kinds[k] == 0 {
 			t.Errorf("no %s entry generated: %v", k, kinds)
 		}
